@@ -9,6 +9,8 @@ CONSTANTS
   MaxNoOffer = 1
   MaxTimeouts = 3
   EnvAtQuiet = FALSE
+  GenNoFaults = FALSE
+  GenHold = 0
 SPECIFICATION FairSpec
 INVARIANTS TypeOK SlotRange CapacityHonoured ReleasedAtMostOnce ReleasedAtEnd NoEarlyRelease RetNeverBlocks CounterMatches ReportedOK RelayPolicy FullCapacityAgain
 PROPERTY PollsAgain
